@@ -11,8 +11,9 @@ Item types enter through `ItemCfg`:
 * `junk`  — what an uninitialised slot of a trivial item type holds (`new int[n]`, `_smallQueue` of a
             fresh object); nothing in the model ever tests for it;
 * `clear` — `IsPerItemClearNecessary()` (`!std::is_trivial<ItemType>`): vacated slots are reset to `dflt`;
-* `moves` — `std::move` leaves the source equal to `dflt` (only `SwapContentsAux` leaves moved-from
-            slots behind at the end of an operation, so it is the only place where this is modelled);
+* `moves` — `std::move` leaves the source equal to `dflt`.  No longer consulted: since the repair of finding
+            C16-D3 no operation leaves a moved-from slot behind when it returns (kept so that item
+            configurations stay comparable with earlier evidence);
 * `sq`    — `ARRAYITEMS(_smallQueue)` (a tunable: every theorem holds for all values).
 
 Not modelled: allocation failure (`B_OUT_OF_MEMORY`), 32-bit overflow of sizes
@@ -318,15 +319,13 @@ def addTailSelf (q : Ring α) (start num : Nat) : Ring α :=
   -- both branches (temporary copy when a reallocation is due, in-place otherwise) read the old items
   q.addTailMulti c (((q.abs c).drop start).take n)
 
-/-- `AddHeadMulti(*this, start, num)` -/
+/-- `AddHeadMulti(*this, start, num)`: always through a temporary copy of the selected items when there is
+    something to add (repair of finding C16-D4; before it the copy was only taken when a reallocation was due and
+    the in-place loop read already shifted items) -/
 def addHeadSelf (q : Ring α) (start num : Nat) : Ring α :=
   let n := clipNum q.count start num
-  if n > q.size - q.count then
-    q.addHeadMulti c (((q.abs c).drop start).take n)      -- via a temporary copy
-  else
-    -- no reallocation: `AddHead(queue[i])` reads `(*this)[i]` AFTER the earlier `AddHead`s shifted the indices
-    let q1 := q.ensureSizeAux c (n + q.count) false 0 false
-    addHeadLoop c q1 (fun i r => r.get c i) start n
+  if n > 0 then q.addHeadMulti c (((q.abs c).drop start).take n)
+  else q.ensureSizeAux c (n + q.count) false 0 false
 
 /-- `InsertItemsAt(index, items, n)` / `InsertItemsAt(index, queue, start, n)` with another queue -/
 def insertItemsAt (q : Ring α) (index : Nat) (xs : List α) (fromQueue : Bool) : Ring α :=
@@ -340,6 +339,19 @@ def insertItemsAt (q : Ring α) (index : Nat) (xs : List α) (fromQueue : Bool) 
     let old := q.count
     let q1 := q.ensureSizeAux c (old + xs.length) true 0 false
     (shiftUp c q1 index xs.length (old - index)).putList index xs
+
+/-- `GetArrayPointer`-style clipping used by the engine for "pointer into the queue's own array" arguments:
+    the number of items that are physically contiguous starting at user index `j` -/
+def contigFrom (q : Ring α) (j : Nat) : Nat :=
+  match q.run 0 with
+  | some (_, len0) => if j < len0 then len0 - j else q.count - j
+  | none => 0
+
+/-- `InsertItemsAt(index, items, n)` with `items` pointing at `(*this)[j]` (`n` contiguous items): through a
+    temporary Queue (repair of finding C16-D5) -/
+def insertItemsOwn (q : Ring α) (index j n : Nat) : Ring α :=
+  let xs := ((q.abs c).drop j).take n
+  if xs.length = 0 then q else q.insertItemsAt c index xs true
 
 /-- `InsertItemsAt(index, *this, start, num)` -/
 def insertItemsSelf (q : Ring α) (index start num : Nat) : Ring α :=
@@ -494,8 +506,9 @@ def swapContentsAux (this that : Ring α) : Ring α × Ring α :=
   let ni := this.count
   let items := this.abs c
   let thatSmall := overwritePrefix that.sbuf items
-  -- moved-from slots of `this->_smallQueue`
-  let thisSmall := if c.moves then (this.putList 0 (List.replicate ni c.dflt)).slots else this.slots
+  -- `if (IsPerItemClearNecessary()) from = GetDefaultItem()` after each hand-over (repair of finding C16-D3;
+  -- before it the inline slots kept whatever `std::move` left behind, i.e. the items themselves for a copy-only type)
+  let thisSmall := if c.clear then (this.putList 0 (List.replicate ni c.dflt)).slots else this.slots
   let this' : Ring α :=
     { slots := that.slots, head := if that.size > 0 then that.head else 0, tail := if that.size > 0 then that.tail else 0,
       count := that.count, kind := that.kind, sbuf := thisSmall }
